@@ -116,13 +116,27 @@ func cmdOpFront(args []string) error {
 	defer ln.Close()
 	var curMu sync.Mutex
 	var curAdmin http.Handler
+	loseNext := false // the next request is carried out, but its answer never reaches the caller (connection closed)
 	go func() {
 		_ = http.Serve(ln, http.HandlerFunc(func(w http.ResponseWriter, req *http.Request) {
 			curMu.Lock()
 			h := curAdmin
+			lose := loseNext && req.Method == http.MethodPost // the first mutating request of the case
+			if lose {
+				loseNext = false
+			}
 			curMu.Unlock()
 			if h == nil {
 				w.WriteHeader(503)
+				return
+			}
+			if lose {
+				h.ServeHTTP(httptest.NewRecorder(), req)
+				if hj, ok := w.(http.Hijacker); ok {
+					if conn, _, err := hj.Hijack(); err == nil {
+						conn.Close()
+					}
+				}
 				return
 			}
 			h.ServeHTTP(w, req)
@@ -142,6 +156,7 @@ func cmdOpFront(args []string) error {
 	for c := 0; c < *n; c++ {
 		via := pick(r, []string{"mcp-sqlite", "admin-memory", "admin-sqlite", "mcp-proxy-memory"})
 		dbPath := filepath.Join(dir, fmt.Sprintf("q%d.db", c))
+		lostAnswer := via == "mcp-proxy-memory" && r.chance(15)
 		var store queue.Store
 		if via == "admin-memory" || via == "mcp-proxy-memory" {
 			store = queue.NewMemoryStore()
@@ -275,6 +290,15 @@ func cmdOpFront(args []string) error {
 				f.Preview = true
 				argsM["preview_only"] = true
 			}
+			if lostAnswer {
+				// a selection that a second application would extend: one message at a time, no other criterion
+				f.Limit, f.Preview, f.State, f.Before, f.Target = 1, false, "", 0, ""
+				argsM["limit"] = 1
+				delete(argsM, "preview_only")
+				delete(argsM, "state")
+				delete(argsM, "before")
+				delete(argsM, "target")
+			}
 			op.F = &f
 		} else if kind != "publish" {
 			k := 1 + r.intn(4)
@@ -306,6 +330,7 @@ func cmdOpFront(args []string) error {
 				}
 				curMu.Lock()
 				curAdmin = rtp.AdminServer(store)
+				loseNext = lostAnswer
 				curMu.Unlock()
 			}
 			if kind == "publish" {
@@ -422,10 +447,10 @@ func cmdOpFront(args []string) error {
 			raw = raw[:300]
 		}
 		if kind == "publish" {
-			emit(map[string]interface{}{"k": "frontpub", "case": c, "via": via, "items": pubItems, "selector": [2]string{app_, name}, "resp": resp, "raw": raw, "before": before, "after": after})
+			emit(map[string]interface{}{"k": "frontpub", "case": c, "via": via, "lostAnswer": lostAnswer, "items": pubItems, "selector": [2]string{app_, name}, "resp": resp, "raw": raw, "before": before, "after": after})
 			continue
 		}
-		emit(map[string]interface{}{"k": "front", "case": c, "via": via, "op": op, "selector": [2]string{app_, name}, "expectRefusal": expectRefusal, "resp": resp, "raw": raw, "before": before, "after": after})
+		emit(map[string]interface{}{"k": "front", "case": c, "via": via, "lostAnswer": lostAnswer, "op": op, "selector": [2]string{app_, name}, "expectRefusal": expectRefusal, "resp": resp, "raw": raw, "before": before, "after": after})
 	}
 	return nil
 }
